@@ -21,9 +21,11 @@ import (
 	"verifharness/internal/hx"
 	"verifharness/internal/prng"
 
+	"github.com/acquirecloud/golibs/kvs"
 	dist "github.com/acquirecloud/golibs/kvs/distlock"
 	"github.com/acquirecloud/golibs/kvs/inmem"
 	"github.com/acquirecloud/golibs/logging"
+	"github.com/acquirecloud/golibs/timeout"
 )
 
 type Fault struct {
@@ -66,6 +68,12 @@ type Case struct {
 	// death scenarios: a SECOND caller is parked in LockWithCtx before the parked contender and gives up (context
 	// deadline TTL/4 after the death, i.e. before the record can run out): the remaining one must still acquire
 	Early bool `json:"early,omitempty"`
+	// scenario (ix), solo only: the process-wide timer queue holds an unrelated future that is due in an hour and the
+	// renewal timers of Crowd other locks (own stores, own providers, same lease) that were acquired one after the
+	// other before the tenure under study and stay held as long as it does. Each of their records is sampled every
+	// TTL/5: a lease that is not in force while its lock is held is reported like a lapse of the tenure under study
+	// (it has to persist over three runs in a process whose sleep canary is quiet).
+	Crowd int `json:"crowd,omitempty"`
 	Pre  string `json:"pre,omitempty"`
 	PreK int    `json:"pre_k,omitempty"`
 	Jit   uint64 `json:"jit"`
@@ -77,6 +85,7 @@ type outcome struct {
 	fatal       string
 	lapse       bool
 	lapseWhat   string
+	crowdLapse  string
 	lateRelease bool
 	acquired2   bool
 	contFail    bool
@@ -192,6 +201,64 @@ func runScenario(cs Case) (o *outcome) {
 		}
 	}
 
+	if cs.Crowd > 0 {
+		longF := timeout.Call(func() {}, time.Hour)
+		defer longF.Cancel()
+		type helper struct {
+			st  kvs.Storage
+			key string
+			l   interface {
+				LockWithCtx(context.Context) error
+				Unlock()
+			}
+		}
+		var hs []helper
+		for i := 0; i < cs.Crowd; i++ {
+			st := inmem.New()
+			p := dist.NewKvsLockProvider(st, "/crowd/")
+			if !dist.VerifSetLeaseTTL(p, ttl) {
+				o.fatal = "VerifSetLeaseTTL: not a kvs lock provider"
+				return
+			}
+			h := helper{st: st, key: fmt.Sprintf("/crowd/H%d", i), l: p.NewLocker(fmt.Sprintf("H%d", i))}
+			if h.l.LockWithCtx(ctx) != nil {
+				o.fatal = "a lock of the crowd could not be acquired on an empty store"
+				return
+			}
+			hs = append(hs, h)
+			time.Sleep(ttl/7 + time.Duration(prng.New(cs.Jit, "C05crowd", uint64(i)).Intn(int(ttl/9)+1)))
+		}
+		stopSampler := make(chan struct{})
+		wg.Add(1)
+		go func() {
+			defer wg.Done()
+			for {
+				select {
+				case <-stopSampler:
+					return
+				case <-time.After(ttl / 5):
+				}
+				for i, h := range hs {
+					if _, err := h.st.Get(context.Background(), h.key); err != nil {
+						c.mu.Lock()
+						if o.crowdLapse == "" {
+							o.crowdLapse = fmt.Sprintf("the record of crowd lock %d is gone %.1f ms after the start while the lock is held: %v", i, float64(time.Since(start))/1e6, err)
+						}
+						c.mu.Unlock()
+					}
+				}
+			}
+		}()
+		defer func() {
+			close(stopSampler)
+			for _, h := range hs {
+				func() {
+					defer func() { recover() }()
+					h.l.Unlock()
+				}()
+			}
+		}()
+	}
 	if cs.Pre != "" {
 		c.mu.Lock()
 		c.pre, c.preParkK = true, cs.PreK
@@ -566,6 +633,9 @@ func analyse(o *outcome) {
 	}
 	o.premise = ttl/2+o.k*(ttl/10)+(o.k+1)*(o.dl+o.ep) < ttl
 	o.failIdx, o.failCode, o.failText = mirrorCheck(ttl, evs, o.cs.End == "death")
+	if o.crowdLapse != "" && o.failCode == 0 {
+		o.failIdx, o.failCode, o.failText = len(evs), 7, o.crowdLapse
+	}
 	if o.lateRelease && o.failCode == 0 {
 		o.failIdx, o.failCode, o.failText = len(evs), 5, "the contender parked in LockWithCtx had not acquired the lock TTL + 3 s after the death of the holder"
 	}
@@ -745,6 +815,7 @@ func estimate(cs Case) time.Duration {
 	if cs.Pre != "" {
 		d += time.Duration(cs.PreK) * ttl / 2
 	}
+	d += time.Duration(cs.Crowd) * ttl / 4
 	return d + 4*ttl
 }
 
@@ -891,6 +962,8 @@ func generate(seed uint64, thorough bool) []Case {
 				add(Case{Solo: true, TTLms: ttl, Acq: acq(), End: "unlock", HoldU: r.Range(72, 110), Two: "after", EndK: 1})
 				add(Case{Solo: true, TTLms: ttl, Acq: acq(), End: "unlock", HoldU: r.Range(72, 110), Two: "after", EndK: 2})
 				add(Case{Solo: true, TTLms: ttl, Acq: acq(), End: "unlock", HoldU: r.Range(72, 110), Two: prng.Pick(r, []string{"before", "first"}), EndK: r.Range(1, 2)})
+				// (ix) a crowd of other held locks and an unrelated far-away future in the same timer queue
+				add(Case{Solo: true, TTLms: ttl, Acq: acq(), End: "unlock", HoldU: r.Range(84, 120), Crowd: r.Range(3, 5)})
 			}
 		}
 	}
@@ -974,6 +1047,8 @@ func main() {
 				what = "the lock of a dead holder was not handed over"
 			} else if o.FailCode == 6 {
 				what = "renewal of a finished tenure does not die out after Unlock"
+			} else if o.FailCode == 7 {
+				what = "the lease of another lock held in the same process was not in force"
 			}
 			s.DirectViolation(cs.ID, what, map[string]any{"reason": o.FailText, "measured_lateness_ms": float64(o.Dl) / 1e6,
 				"measured_latency_ms": float64(o.Ep) / 1e6, "lost_in_a_row": o.K, "premise_of_lease_kept_met": o.Premise,
@@ -984,6 +1059,9 @@ func main() {
 		}
 		if cs.Two != "" {
 			s.Count("two-holders:" + cs.Two)
+		}
+		if cs.Crowd > 0 {
+			s.Count(fmt.Sprintf("crowd-of-held-locks:%d", cs.Crowd))
 		}
 		s.Count(fmt.Sprintf("ttl:%dms", cs.TTLms))
 		s.Count("end:" + cs.End)
